@@ -3,6 +3,7 @@ package main
 // Verdicts, known findings, evidence.
 
 import (
+	"go/token"
 	"encoding/json"
 	"fmt"
 	"go/types"
@@ -518,4 +519,141 @@ func (e *Engine) immutableSweep(used map[string]bool, prop string) *fnTrans {
 		return nil
 	}
 	return t
+}
+
+// repoFunctions: every function (methods and closures included) of the loaded repository packages.
+func (e *Engine) repoFunctions() []*ssa.Function {
+	var fns []*ssa.Function
+	seen := map[*ssa.Function]bool{}
+	var collect func(f *ssa.Function)
+	collect = func(f *ssa.Function) {
+		if f == nil || seen[f] {
+			return
+		}
+		seen[f] = true
+		fns = append(fns, f)
+		for _, a := range f.AnonFuncs {
+			collect(a)
+		}
+	}
+	for _, path := range sortedKeys(e.built) {
+		sp := e.ssaPkgs[path]
+		if sp == nil || !e.built[path] {
+			continue
+		}
+		var names []string
+		for n := range sp.Members {
+			names = append(names, n)
+		}
+		sort.Strings(names)
+		for _, n := range names {
+			switch m := sp.Members[n].(type) {
+			case *ssa.Function:
+				collect(m)
+			case *ssa.Type:
+				for _, recv := range []types.Type{m.Type(), types.NewPointer(m.Type())} {
+					ms := e.prog.MethodSets.MethodSet(recv)
+					for i := 0; i < ms.Len(); i++ {
+						if f := e.prog.MethodValue(ms.At(i)); f != nil && f.Pkg == sp {
+							collect(f)
+						}
+					}
+				}
+			}
+		}
+	}
+	return fns
+}
+
+// chanInvSweep: a `chaninv` on Type.field is assumed at receives; that is justified when (1) every send
+// into a channel loaded from that field happens in a function under (non-trusted) contract, where it is an
+// obligation, and (2) the channel is never closed (a receive from a closed channel yields the zero value).
+// Sends through an alias (a local or parameter holding the channel) cannot be attributed to a field:
+// sends of the same element type through such values are listed in the obligation text as unchecked.
+func (e *Engine) chanInvSweep(used map[string]bool, prop string) *fnTrans {
+	if len(used) == 0 {
+		return nil
+	}
+	t := &fnTrans{eng: e, name: "sweep", vars: map[string]*StateVar{}}
+	t.S = newSorts(false, e.inRepo)
+	fns := e.repoFunctions()
+	for _, key := range sortedKeys(used) {
+		ci := e.contracts.ChanInvs[key]
+		var hits, aliased []string
+		var elem types.Type
+		note := func(f *ssa.Function, ch ssa.Value, pos token.Pos, what string) {
+			k := chanFieldKey(ch)
+			ct, ok := ch.Type().Underlying().(*types.Chan)
+			if !ok {
+				return
+			}
+			if k == key {
+				elem = ct.Elem()
+				if what == "close" {
+					hits = append(hits, fmt.Sprintf("close in %s at %s", e.displayName(f), e.fset.Position(pos)))
+					return
+				}
+				fc := e.contractOf(f)
+				if fc == nil || fc.Trusted {
+					hits = append(hits, fmt.Sprintf("send outside verified contracts in %s at %s", e.displayName(f), e.fset.Position(pos)))
+				}
+				return
+			}
+			if k == "" && what == "send" {
+				aliased = append(aliased, fmt.Sprintf("%s|%s at %s", types.TypeString(ct.Elem(), nil), e.displayName(f), e.fset.Position(pos)))
+			}
+		}
+		for _, f := range fns {
+			for _, b := range f.Blocks {
+				for _, in := range b.Instrs {
+					switch in := in.(type) {
+					case *ssa.Send:
+						note(f, in.Chan, in.Pos(), "send")
+					case *ssa.Select:
+						for _, s := range in.States {
+							if s.Dir == types.SendOnly {
+								note(f, s.Chan, s.Pos, "send")
+							}
+						}
+					case *ssa.Call:
+						if bi, ok := in.Call.Value.(*ssa.Builtin); ok && bi.Name() == "close" && len(in.Call.Args) == 1 {
+							note(f, in.Call.Args[0], in.Pos(), "close")
+						}
+					}
+				}
+			}
+		}
+		o := &Obligation{Name: "sweep/chaninv[" + ci.Short + "]", Fn: "sweep", Kind: "sweep", Props: []string{prop},
+			Desc: "every send into " + ci.Short + " is an obligation of a verified function and the channel is never closed"}
+		var unchecked []string
+		if elem != nil {
+			es := types.TypeString(elem, nil)
+			for _, a := range aliased {
+				if strings.HasPrefix(a, es+"|") {
+					unchecked = append(unchecked, strings.TrimPrefix(a, es+"|"))
+				}
+			}
+		}
+		if len(unchecked) > 0 {
+			sort.Strings(unchecked)
+			t.assumptionsInit()
+			t.assumptions["chaninv "+ci.Short+": sends of the same element type through a channel held in a local or parameter are not attributed to the field and not checked: "+strings.Join(unchecked, "; ")] = true
+		}
+		if len(hits) == 0 {
+			o.Result, o.Solver = "unsat", "ssa-sweep"
+		} else {
+			sort.Strings(hits)
+			o.Result, o.Solver = "violated", "ssa-sweep"
+			o.Outputs = map[string]string{"ssa-sweep": strings.Join(hits, "; ")}
+			o.Desc += ": " + strings.Join(hits, "; ")
+		}
+		t.obls = append(t.obls, o)
+	}
+	return t
+}
+
+func (t *fnTrans) assumptionsInit() {
+	if t.assumptions == nil {
+		t.assumptions = map[string]bool{}
+	}
 }
